@@ -244,7 +244,7 @@ func TestVerifC12(t *testing.T) {
 	res := vrep.New("C12", p)
 	defer res.Guard()
 	base, _ := vrep.Scratch("c12")
-	res.Rule = "E3: 3 base reports x every single field deviation (14 invalid + 4 valid weeks, 8+4 configs, 8+8 X values, 12+4 build fields, 14+1 counters, 6+4 stacks, 7+3 values, null/ill-typed programs) x {POST} plus 7 methods x 4 paths, truncation of a valid body at every byte offset, white-space padding to limit-1/limit/limit+1, BOM, array, null, trailing garbage, duplicate keys; each through the real newHandler chain with a file-system bucket; classes = (expected class, status)"
+	res.Rule = "E3: 3 base reports x every single field deviation (14 invalid + 4 valid weeks, 8+4 configs, 8+8 X values, 12+4 build fields, 14+1 counters, 6+4 stacks, 7+3 values, null/ill-typed programs) x {POST} plus 7 methods x 4 paths, truncation of a valid body at every byte offset, white-space padding to limit-1/limit/limit+1, BOM, array, null, trailing garbage, duplicate keys; each through the real newHandler chain with a file-system bucket;  plus chunked bodies, trailing data / second report / white space beyond the limit after a valid report, E2 sequences of valid uploads, and a loopback-TCP leg (sender half-closes after bodies cut at 5 positions x 3 repeats); classes = (expected class, status)"
 	res.Assumptions = []string{"the GCS backend is not exercised", "requests are served through httptest recorders (no sockets)"}
 	if p.Replay != "" {
 		fmt.Println("C12 replay: cases are deterministic; re-run the quick check")
